@@ -64,7 +64,7 @@ PROPS = {
         "rule": "seeded workloads with a fault armed before 1/3 of the calls (the k-th action from then fails, k in 0..4), in-process audits, restart, reopen, usability probe; oracle = acknowledged entries readable and unchanged in-process and after reopen; distinct = distinct input lines",
     },
     "C09": {
-        "streams": [S("format", 400, 8000, vm=(40, 400)), S("golden", 1, 1, vm=(8, 18), vm_maxlen=6000)],
+        "streams": [S("format", 250, 8000, vm=(16, 400)), S("golden", 1, 1, vm=(8, 18), vm_maxlen=6000)],
         "trusted": [GO, "README.md sections 'Segment Files', 'Frames', 'Alignment', 'Sealing' as transcribed in coq/Fmt/ReadmeSpec.v (literal constants, independent encoder/decoder)",
                     "golden fixtures under golden/ were written by `wh mkgolden` with the tree pinned in round 1"],
         "assumptions": ["segment files stay below 2^32 bytes (offsets are uint32 in the format; guard of every theorem)",
@@ -73,7 +73,7 @@ PROPS = {
         "rule": "format: seeded histories of appends (all padding residues, payloads that look like frames), size/forced sealing, tail and sealed reads, file dump byte-for-byte; golden: 5 committed directories (single tail, sealed+tail, head truncation, tail truncation + re-append, custom start index), each opened by the current code, each segment file decoded by the README-only parser; distinct = distinct input lines",
     },
     "C15": {
-        "streams": [S("sizes", 150, 400, vm=(30, 200))],
+        "streams": [S("sizes", 120, 400, vm=(12, 200))],
         "trusted": [GO],
         "assumptions": ["L1 (single segment file) form; the WAL-level lifting is part of C05/C01",
                         "segment files stay below 2^32 bytes",
